@@ -11,7 +11,8 @@ ENCODED = ['Fxp.__init__', 'Fxp._init_size', 'Fxp.resize', 'Fxp.set_val', 'Fxp._
            'Fxp.__call__', 'Fxp.__setitem__', 'utils.str2num']
 ASSUMPTIONS = [
     'float inputs are dyadic rationals k*2^-(n_frac+G) (a superset of the doubles on that grid); quick G=64, thorough G=1074-n_frac for the scalar float rows',
-    'NaN/inf and decimal-string carriers are outside the model',
+    'decimal-string carriers are numerals [sign] d..d [.fraction] [e exponent] with 1..6 symbolic integer digits and a concrete dyadic fraction '
+    '(.5, .25, .375, ...) and exponent (e0, e1, e2); other decimal fractions (float() rounds them) and NaN/inf are outside the model',
     'NumPy overlay (sx/symnp.py) agrees with NumPy 2.5.3 on the executed operations (validated per path against the real code)',
 ]
 
@@ -71,6 +72,9 @@ def configs(tier, seed):
         for ent in (C.pick(HISTORY_ENTRIES, 2, rng) if tier == 'quick' else HISTORY_ENTRIES):
             (r, o) = rng.choice(C.modes())
             out.append(_cfg(sg, n, f, r, o, rng.choice(('pyfloat', 'pyint')), ent))
+    # decimal strings: symbolic integer digits, concrete dyadic fraction / exponent
+    decf = [fm_ for fm_ in C.formats_q() if fm_[1] <= 33 or fm_[2] <= 30]
+    out += _dec_cfgs(C.pick(decf, 60, rng) if tier == 'quick' else decf, rng, 1 if tier == 'quick' else 3, ENTRIES)
     # arrays and lists mixing one element of any magnitude with ordinary ones (the huge element must not change how the others are rounded)
     for (s, n, f) in C.pick(bigf, 12 if tier == 'quick' else 60, rng):
         for r in C.pick(SP.ROUNDINGS, 2, rng) if tier == 'quick' else SP.ROUNDINGS:
@@ -81,8 +85,54 @@ def configs(tier, seed):
     return out
 
 
+DEC_SHAPES = [('', ''), ('', '.0'), ('', '.5'), ('', '.25'), ('', '.75'), ('', '.125'), ('', '.375'), ('', '.'), ('', '.5e1'), ('', 'e1'), ('', '.25e2'),
+              ('', 'E0'), ('', '.0625')]
+
+
+def _dec_cfgs(fm, rng, per_format, entries):
+    out = []
+    for (s, n, f) in fm:
+        for _ in range(per_format):
+            (r, o) = rng.choice(C.modes())
+            _, tail = rng.choice(DEC_SHAPES)
+            sign = rng.choice(('', '-', '+')) if s else rng.choice(('', '-', '+', ''))
+            e10 = int(tail.lower().split('e')[1]) if 'e' in tail.lower() else 0
+            nd = rng.choice((1, 2, 3, 4, 6))
+            while nd > 1 and (10 ** (nd + e10)) << max(f, 0) >= 1 << 62:
+                nd -= 1
+            if (10 ** (nd + e10)) << max(f, 0) >= 1 << 62:
+                continue
+            car = rng.choice(('decstr', 'decstr', 'decstr:list', 'decstr:nparr'))
+            c = _cfg(s, n, f, r, o, car, rng.choice(entries))
+            c['dec'] = dict(sign=sign, nd=nd, tail=tail)
+            out.append(c)
+    return out
+
+
+def _dec_value(cfg, digits):
+    """exact value of the numeral sign + digits + tail as a dyadic (num, exp)"""
+    from fractions import Fraction
+    d = cfg['dec']
+    tail = d['tail'].lower()
+    mant, _, ex = tail.partition('e')
+    e10 = int(ex) if ex else 0
+    fp = mant[1:] if mant.startswith('.') else ''
+    fr = (Fraction(int(fp), 10 ** len(fp)) if fp else Fraction(0)) * 10 ** e10
+    k = fr.denominator.bit_length() - 1
+    assert fr.denominator == 1 << k
+    if isinstance(digits, str):
+        ip = int(digits)
+    else:
+        from sx import sstr as S
+        ip = S.parse_int(digits, 10)
+    num = T.iadd(T.imul(ip, (10 ** e10) << k), fr.numerator)
+    return (T.ineg(num) if d['sign'] == '-' else num), -k
+
+
 def _ncells(cfg):
     car = cfg['carrier']
+    if car.startswith('decstr'):
+        return 1 if car == 'decstr' else 2
     if car.startswith('arr:') or car in ('list', 'tuple', 'listf'):
         return 2
     if car == 'nested':
@@ -104,6 +154,8 @@ def _kind(cfg):
 
 def inputs(cfg):
     f, G = cfg['n_frac'], cfg['G']
+    if cfg['carrier'].startswith('decstr'):
+        return {'v%d' % i: dict(kind='str', len=cfg['dec']['nd'], alphabet='0123456789') for i in range(_ncells(cfg))}
     kind, d = _kind(cfg)
     spec = {}
     for i in range(_ncells(cfg)):
@@ -130,6 +182,13 @@ def inputs(cfg):
 
 def _carrier(F, cfg, vals):
     car = cfg['carrier']
+    if car.startswith('decstr'):
+        strs = [cfg['dec']['sign'] + v + cfg['dec']['tail'] for v in vals]
+        if car == 'decstr':
+            return strs[0], ()
+        if car == 'decstr:list':
+            return strs, (2,)
+        return F.np.array(strs), (2,)
     if car in ('pyint', 'pyfloat'):
         return vals[0], ()
     if car.startswith('np:'):
@@ -194,6 +253,8 @@ def run(F, cfg, inp):
 def post(cfg, inp, ob):
     s, n, f, r, o = cfg['signed'], cfg['n_word'], cfg['n_frac'], cfg['rounding'], cfg['overflow']
     vals = [inp['v%d' % i] for i in range(_ncells(cfg))]
+    if cfg['carrier'].startswith('decstr'):
+        vals = [_dec_value(cfg, v) for v in vals]
     out = [('format_kept', (ob['signed'], ob['n_word'], ob['n_frac']) == (s, n, f))]
     codes = O.cells(ob['val'])
     reads = O.cells(ob['value'])
